@@ -25,10 +25,79 @@ def calls_to(p: Project, f: FuncInfo, callee_key: Optional[str] = None, name: Op
 
 
 def kw(call: ast.Call, callee: Optional[FuncInfo] = None) -> Dict[str, ast.expr]:
+    """keyword (or, with a callee, bound) arguments of a call.  An argument that is a temporary bound once, read once, in the statements right before the call's statement
+    (`_t = g(x); f(a=_t)`) is reported as the expression it stands for: introducing or removing such a temporary does not change what a rule sees."""
     if callee is not None:
         b, _ = Project.bind(call, callee)
-        return b
-    return {k.arg: k.value for k in call.keywords if k.arg}
+    else:
+        b = {k.arg: k.value for k in call.keywords if k.arg}
+    return {k: see_through(call, v) for k, v in b.items()}
+
+
+def _fn_index(fn: ast.AST):
+    """per function (cached on the node): name -> (stores, loads) in the function's own scope, statement -> (block, position), expression node -> statement"""
+    idx = getattr(fn, "_sa_index", None)
+    if idx is not None:
+        return idx
+    stores: Dict[str, List[ast.AST]] = {}
+    loads: Dict[str, int] = {}
+    banned = {a.arg for a in fn.args.posonlyargs + fn.args.args + fn.args.kwonlyargs} | ({fn.args.vararg.arg} if fn.args.vararg else set()) | ({fn.args.kwarg.arg} if fn.args.kwarg else set())
+    where: Dict[int, Tuple[list, int]] = {}
+    stmt_of: Dict[int, ast.stmt] = {}
+
+    def walk(n, stmt, inner):
+        for fld, val in ast.iter_fields(n):
+            if isinstance(val, list) and val and isinstance(val[0], ast.stmt):
+                for k, st in enumerate(val):
+                    where[id(st)] = (val, k)
+        for ch in ast.iter_child_nodes(n):
+            sub = inner or isinstance(ch, (ast.FunctionDef, ast.AsyncFunctionDef, ast.Lambda, ast.ClassDef, ast.ListComp, ast.SetComp, ast.DictComp, ast.GeneratorExp))
+            cur = ch if isinstance(ch, ast.stmt) else stmt
+            if not isinstance(ch, ast.stmt) and cur is not None:
+                stmt_of[id(ch)] = cur
+            if isinstance(ch, ast.Name):
+                if sub:
+                    banned.add(ch.id)
+                elif isinstance(ch.ctx, ast.Load):
+                    loads[ch.id] = loads.get(ch.id, 0) + 1
+                else:
+                    stores.setdefault(ch.id, []).append(cur)
+            if isinstance(ch, (ast.Global, ast.Nonlocal)):
+                banned.update(ch.names)
+            walk(ch, cur, sub)
+    walk(fn, None, False)
+    fn._sa_index = (stores, loads, banned, where, stmt_of)
+    return fn._sa_index
+
+
+def see_through(anchor: ast.AST, e: ast.expr, depth: int = 4) -> ast.expr:
+    """if e is a single-use temporary defined in the statements immediately before the statement that contains `anchor`, the expression it was bound to"""
+    fn = getattr(anchor, "_sa_fn", None)
+    while depth > 0 and fn is not None and isinstance(e, ast.Name) and isinstance(e.ctx, ast.Load):
+        stores, loads, banned, where, stmt_of = _fn_index(fn)
+        x = e.id
+        if x in banned or loads.get(x, 0) != 1 or len(stores.get(x, [])) != 1:
+            break
+        d = stores[x][0]
+        if not (isinstance(d, ast.Assign) and len(d.targets) == 1 and isinstance(d.targets[0], ast.Name)):
+            break
+        use_stmt = stmt_of.get(id(e)) or stmt_of.get(id(anchor))
+        if use_stmt is None or id(use_stmt) not in where or id(d) not in where:
+            break
+        blk, k = where[id(use_stmt)]
+        blk_d, kd = where[id(d)]
+        if blk_d is not blk or kd >= k:
+            break
+        # everything between the definition and the use is itself the definition of such a temporary (a run of temporaries right before the call)
+        between_ok = True
+        for st in blk[kd + 1:k]:
+            if not (isinstance(st, ast.Assign) and len(st.targets) == 1 and isinstance(st.targets[0], ast.Name) and loads.get(st.targets[0].id, 0) == 1 and len(stores.get(st.targets[0].id, [])) == 1):
+                between_ok = False
+        if not between_ok:
+            break
+        e = d.value
+        depth -= 1
+    return e
 
 
 def kwtext(call: ast.Call, callee: Optional[FuncInfo] = None) -> Dict[str, str]:
@@ -81,10 +150,12 @@ def enclosing_branches(f: FuncInfo, node: ast.AST) -> List[Tuple[ast.If, bool]]:
 
 def resolve_local(f: FuncInfo, e: ast.expr, depth: int = 3) -> ast.expr:
     """a local name that is bound exactly once in f (and is not a parameter) stands for the expression it was bound to"""
-    while depth > 0 and isinstance(e, ast.Name) and e.id not in f.all_params:
+    while depth > 0 and isinstance(e, ast.Name):
         asg = [n for n in f.body_nodes() if isinstance(n, (ast.Assign, ast.AugAssign, ast.AnnAssign, ast.For)) and any(isinstance(t, ast.Name) and t.id == e.id for t in _targets(n))]
         if len(asg) != 1 or not isinstance(asg[0], ast.Assign) or len(asg[0].targets) != 1 or not isinstance(asg[0].targets[0], ast.Name):
             break
+        if e.id in f.all_params and not (getattr(e, "lineno", 0) > asg[0].lineno and not enclosing_branches(f, asg[0])):
+            break   # a parameter stands for its rebinding only after an unconditional `p = g(p)`
         e = asg[0].value
         depth -= 1
     return e
@@ -96,6 +167,41 @@ def _targets(n):
     for t in ts:
         out.extend(x for x in ast.walk(t) if isinstance(x, ast.Name))
     return out
+
+
+def inline_locals(f: FuncInfo, e: ast.expr, depth: int = 5) -> ast.expr:
+    """a copy of e in which every local name that is bound exactly once in f (by a plain assignment, not a loop / with / augmented assignment, not a parameter) is replaced,
+    recursively, by the expression it was bound to: the name-free form of e.  Names bound several times, parameters and loop variables stay."""
+    import copy
+    cache = getattr(f, "_sa_single", None)
+    if cache is None:
+        binds: Dict[str, List[ast.AST]] = {}
+        for n in f.body_nodes():
+            if isinstance(n, (ast.Assign, ast.AugAssign, ast.AnnAssign, ast.For, ast.With, ast.NamedExpr, ast.comprehension)):
+                for x in _targets(n) if isinstance(n, (ast.Assign, ast.AugAssign, ast.AnnAssign, ast.For)) else [y for y in ast.walk(n) if isinstance(y, ast.Name) and isinstance(y.ctx, ast.Store)]:
+                    binds.setdefault(x.id, []).append(n)
+        cache = {k: v[0].value for k, v in binds.items() if len(v) == 1 and isinstance(v[0], ast.Assign) and len(v[0].targets) == 1 and isinstance(v[0].targets[0], ast.Name) and k not in f.all_params}
+        f._sa_single = cache
+
+    class T(ast.NodeTransformer):
+        def __init__(self, d):
+            self.d = d
+
+        def visit_Name(self, n):
+            if isinstance(n.ctx, ast.Load) and n.id in cache and self.d > 0:
+                return T(self.d - 1).visit(copy.deepcopy(cache[n.id]))
+            return n
+    return T(depth).visit(copy.deepcopy(e))
+
+
+def kwr(f: FuncInfo, call: ast.Call, callee: Optional[FuncInfo] = None) -> Dict[str, str]:
+    """keyword (bound) arguments of a call as name-free normalised text: single-assignment locals inlined, np.array(...) wrappers stripped"""
+    return {k: norm_text(strip_np_array(inline_locals(f, v))) for k, v in kw(call, callee).items()}
+
+
+def is_value_of(f: FuncInfo, e: ast.expr, target: ast.AST) -> bool:
+    """e denotes the value of `target` (a call / expression node of f): it is that node, or a local name bound exactly once, to it (looked through repeatedly)"""
+    return resolve_local(f, e, depth=4) is target or e is target
 
 
 def branch_conds(f: FuncInfo, node: ast.AST) -> List[Tuple[str, bool]]:
